@@ -81,7 +81,7 @@ def hash_inputs(tier, seed):
         for j in range(sp):
             out.append({'k': 'hash', 'id': 'r%d_%d' % (n, j), 'what': 'all', 'bytes': rand_bytes(r, n, 0 if j < 2 else r.randrange(3))})
     out.append({'k': 'hash', 'id': 'idx0', 'what': 'idx', 'bytes': rand_bytes(r, 4096, 0)})
-    for i, n in enumerate([16384, 65536] if tier == 'quick' else [65536, 65537, 100000, 262144, 1048576]):
+    for i, n in enumerate([16384, 65536, 262145, 300000] if tier == 'quick' else [65536, 65537, 100000, 262144, 262145, 300000, 1048576]):   # (> 256 KiB: a CRC computed in pieces)
         out.append({'k': 'hash', 'id': 'crc%d' % i, 'what': 'crc', 'bytes': rand_bytes(r, n, 0)})
     return out
 
